@@ -19,6 +19,14 @@
 // (sentinel), the responses are collected when the gates are opened at the end of a window. Besides
 // the session-table model, the order in which SendChunk is CALLED for one session is compared with
 // the order in which the seeder produced the responses (see pipelined_test.go).
+//
+// TestC17SendFaults replays the histories of TestC17Sessions with peers whose SendChunk returns an
+// error (broken: always; flaky: a drawn subset of the sends of each request) and mostly small
+// pending-memory limits. Sessions without a failed send keep the full oracle; a session with a failed
+// send only owes what holds under every reading of the property (checkTainted). The seeder's private
+// pending counter is read as well (locatePending): bounds at every ForEachItem/SendChunk entry, zero
+// whenever nothing is pending (checkDrained), and a reader loop that stands still at the limit
+// although nothing is pending is reported (waitFor).
 package c17
 
 import (
@@ -26,11 +34,14 @@ import (
 	"fmt"
 	"math"
 	"os"
+	"reflect"
 	"sort"
 	"strings"
 	"sync"
+	"sync/atomic"
 	"testing"
 	"time"
+	"unsafe"
 
 	"github.com/Fantom-foundation/lachesis-base/gossip/basestream"
 	"github.com/Fantom-foundation/lachesis-base/gossip/basestream/basestreamseeder"
@@ -104,6 +115,7 @@ type respRec struct {
 	peer     string
 	resp     basestream.Response
 	keys     []int
+	failed   bool // SendChunk returned an (injected) error for it
 }
 
 // sentinelPayload is the payload of a sentinel session that is never done (reuse mode); it does
@@ -152,6 +164,55 @@ type harness struct {
 	violation  string
 	sentinelID uint32
 	stalls     int
+
+	// send faults (TestC17SendFaults): bit i of failMask[peer] makes the i-th SendChunk call of the
+	// peer's current request return an error (one request at a time, so the index is well defined)
+	failMask   map[string]uint64
+	failBase   map[string]int
+	recvFailed map[string][]bool // parallel to recv: the call returned an error
+
+	// the seeder's private pending-memory counter (nil if it cannot be located)
+	pendingPtr *int64
+	maxPending int64
+}
+
+var errInjected = errors.New("injected send failure (connection reset by peer)")
+
+// locatePending finds BaseSeeder.pendingResponsesSize (observation point "BaseSeeder pending size").
+func locatePending(s *basestreamseeder.BaseSeeder) *int64 {
+	f := reflect.ValueOf(s).Elem().FieldByName("pendingResponsesSize")
+	if !f.IsValid() || f.Kind() != reflect.Int64 || !f.CanAddr() {
+		return nil
+	}
+	return (*int64)(unsafe.Pointer(f.UnsafeAddr()))
+}
+
+// pendingLocked samples the seeder's pending counter and checks it against what is known from
+// outside; h.mu must be held (a response that entered SendChunk cannot finish without h.mu).
+//   - never above limit - 1 + largest response (the reader adds a response only below the limit);
+//   - at least the memory of the responses that are inside SendChunk right now: they were added
+//     before they were enqueued and are subtracted only after SendChunk returned.
+func (h *harness) pendingLocked() {
+	if h.pendingPtr == nil {
+		return
+	}
+	c := atomic.LoadInt64(h.pendingPtr)
+	if c > h.maxPending {
+		h.maxPending = c
+	}
+	inside := 0
+	for _, r := range h.outstanding {
+		if r.called && !r.finished {
+			inside += r.mem
+		}
+	}
+	if c > h.cfg.MaxPendingResponsesSize-1+int64(h.maxMem) {
+		h.fail("the seeder's pending response memory is %d: exceeds the limit %d by more than one response (largest response so far %d)",
+			c, h.cfg.MaxPendingResponsesSize, h.maxMem)
+	}
+	if c < int64(inside) {
+		h.fail("the seeder's pending response memory is %d, but responses of %d bytes are inside SendChunk right now", c, inside)
+	}
 }
 
 func newHarness(cfg basestreamseeder.Config, universe []item) *harness {
@@ -165,9 +226,14 @@ func newHarness(cfg basestreamseeder.Config, universe []item) *harness {
 		peerGates:  map[string]*peerGate{},
 		finishedOf: map[string]int{},
 		stallAfter: 25 * time.Millisecond,
+
+		failMask:   map[string]uint64{},
+		failBase:   map[string]int{},
+		recvFailed: map[string][]bool{},
 	}
 	h.cond = sync.NewCond(&h.mu)
 	h.seeder = basestreamseeder.New(cfg, basestreamseeder.Callbacks{ForEachItem: h.forEachItem})
+	h.pendingPtr = locatePending(h.seeder)
 	h.seeder.Start()
 	return h
 }
@@ -202,6 +268,7 @@ func (h *harness) forEachItem(start basestream.Locator, rt basestream.RequestTyp
 		h.fail("pending response memory %d exceeds limit %d by more than one response (largest response so far %d)",
 			out, h.cfg.MaxPendingResponsesSize, h.maxMem)
 	}
+	h.pendingLocked()
 	if rt == sentinelType {
 		h.sentinelSeen++
 	} else {
@@ -262,6 +329,7 @@ func (h *harness) peer(id string) basestreamseeder.Peer {
 				p.rec.called, p.rec.callIdx, p.rec.peer, p.rec.resp = true, len(h.calls), id, r
 				h.calls = append(h.calls, p.rec)
 			}
+			h.pendingLocked()
 			g := h.gate
 			if g != nil {
 				h.blockedSends++
@@ -277,10 +345,17 @@ func (h *harness) peer(id string) basestreamseeder.Peer {
 			if pg := h.peerGates[id]; pg != nil && pg.closed {
 				pg.tokens--
 			}
+			// injected fault: the i-th call of the peer's current request fails
+			failed := false
+			if idx := len(h.recv[id]) - h.failBase[id]; idx >= 0 && idx < 64 && h.failMask[id]>>uint(idx)&1 == 1 {
+				failed = true
+			}
 			h.recv[id] = append(h.recv[id], r)
+			h.recvFailed[id] = append(h.recvFailed[id], failed)
 			h.finishedOf[id]++
 			if p, ok := r.Payload.(*payload); ok && p.rec != nil && !p.rec.finished {
 				p.rec.finished = true
+				p.rec.failed = failed
 				h.finishedCount++
 				k := 0
 				for _, o := range h.outstanding {
@@ -293,6 +368,9 @@ func (h *harness) peer(id string) basestreamseeder.Peer {
 			}
 			h.signal()
 			h.mu.Unlock()
+			if failed {
+				return errInjected
+			}
 			return nil
 		},
 		Misbehaviour: func(err error) {
@@ -310,6 +388,7 @@ func (h *harness) sentinelPeerStruct() basestreamseeder.Peer {
 		SendChunk: func(basestream.Response) error {
 			h.mu.Lock()
 			h.sentinelSent++
+			h.signal()
 			h.mu.Unlock()
 			return nil
 		},
@@ -353,6 +432,15 @@ func (h *harness) anyGateClosed() bool {
 
 const hardTimeout = 60 * time.Second
 
+// stuckTimeout: how long the seeder's pending counter may stay at its limit while nothing is
+// pending (nominal: the few instructions between the return of SendChunk and the decrement).
+const stuckTimeout = 10 * time.Second
+
+// violationSeen is set when a case of this process has failed. From then on rapid only shrinks and
+// re-runs the failing history; a stuck reader loop is then given 1 s instead of stuckTimeout (the
+// verdict was reached with the full patience, the shorter one only keeps shrinking affordable).
+var violationSeen atomic.Bool
+
 // errTimeout: the seeder did not react within hardTimeout (nominal: microseconds). Reported as a
 // violation unless the canary shows that the machine stalled the process.
 type errTimeout struct{ msg string }
@@ -365,27 +453,48 @@ func (e errTimeout) Error() string { return e.msg }
 func (h *harness) waitFor(what string, cond func() bool) error {
 	deadline := time.Now().Add(hardTimeout)
 	stallAfter := h.stallAfter
+	var stuckSince time.Time
 	for {
 		h.mu.Lock()
 		ok := cond()
 		gated := h.anyGateClosed()
+		// nothing is pending (SendChunk returned for every produced response), yet the seeder's
+		// counter says the pending memory is at its limit: the reader loop cannot go on. Legitimate
+		// only for the moment between the return of SendChunk and the sender's bookkeeping.
+		stuck, pend := false, int64(0)
+		if h.pendingPtr != nil && !gated && len(h.outstanding) == 0 {
+			pend = atomic.LoadInt64(h.pendingPtr)
+			stuck = pend >= h.cfg.MaxPendingResponsesSize
+		}
 		h.mu.Unlock()
 		if ok {
 			return nil
+		}
+		if !stuck {
+			stuckSince = time.Time{}
+		} else if stuckSince.IsZero() {
+			stuckSince = time.Now()
+		} else if patience := stuckPatience(); time.Since(stuckSince) > patience {
+			return errTimeout{fmt.Sprintf("waiting for %s: for %v the seeder's pending response memory has been %d (limit %d) although no response is pending "+
+				"(SendChunk returned for every response that was produced); the reader loop waits for ever and serves no request of any peer",
+				what, patience, pend, h.cfg.MaxPendingResponsesSize)}
 		}
 		d := time.Until(deadline)
 		if d <= 0 {
 			return errTimeout{fmt.Sprintf("timed out after %v waiting for %s", hardTimeout, what)}
 		}
+		tick := false
 		if gated && d > stallAfter {
 			d = stallAfter
+		} else if stuck && d > 200*time.Millisecond {
+			d, tick = 200*time.Millisecond, true
 		}
 		tm := time.NewTimer(d)
 		select {
 		case <-h.wake:
 			tm.Stop()
 		case <-tm.C:
-			if gated {
+			if gated && !tick {
 				h.mu.Lock()
 				h.stalls++
 				h.mu.Unlock()
@@ -393,6 +502,13 @@ func (h *harness) waitFor(what string, cond func() bool) error {
 			}
 		}
 	}
+}
+
+func stuckPatience() time.Duration {
+	if violationSeen.Load() {
+		return time.Second
+	}
+	return stuckTimeout
 }
 
 // barrier queues one sentinel request and waits until the reader loop reaches it.
@@ -424,6 +540,7 @@ type outcome struct {
 	responses    []basestream.Response
 	misb         []error
 	feTypes      []basestream.RequestType
+	failed       []bool // parallel to responses: SendChunk returned an injected error
 }
 
 // request submits one request and returns everything it caused, after quiescence.
@@ -431,6 +548,7 @@ func (h *harness) request(peer string, r basestream.Request, gated bool) (outcom
 	var o outcome
 	h.mu.Lock()
 	fe0, r0, m0 := h.feCalls, len(h.recv[peer]), len(h.misb[peer])
+	h.failBase[peer] = r0
 	h.mu.Unlock()
 	if gated {
 		h.closeGate()
@@ -450,9 +568,50 @@ func (h *harness) request(peer string, r basestream.Request, gated bool) (outcom
 	}
 	h.mu.Lock()
 	o.responses = append(o.responses, h.recv[peer][r0:]...)
+	o.failed = append(o.failed, h.recvFailed[peer][r0:]...)
 	o.misb = append(o.misb, h.misb[peer][m0:]...)
 	h.mu.Unlock()
 	return o, nil
+}
+
+// setFailMask: bit i set = the i-th SendChunk call of the peer's next request returns an error.
+func (h *harness) setFailMask(peer string, mask uint64) {
+	h.mu.Lock()
+	h.failMask[peer] = mask
+	h.mu.Unlock()
+}
+
+// checkDrained is called when SendChunk has returned for every response that was produced and no
+// request is in flight: the seeder's pending counter must be back at zero. No timing involved: a
+// sender thread runs its tasks one after the other, consecutive new sessions are assigned to the
+// sender threads round robin, so after one sentinel response went through every sender thread each
+// earlier task - SendChunk and its bookkeeping - has been completed.
+func (h *harness) checkDrained() error {
+	if h.pendingPtr == nil || h.sentinelReuse {
+		return nil
+	}
+	if atomic.LoadInt64(h.pendingPtr) == 0 {
+		return nil
+	}
+	for i := 0; i < h.cfg.SenderThreads; i++ {
+		if err := h.barrier(); err != nil {
+			return err
+		}
+	}
+	if err := h.waitFor("the sentinel responses to pass the sender threads", func() bool { return uint32(h.sentinelSent) >= h.sentinelID }); err != nil {
+		return err
+	}
+	h.mu.Lock()
+	defer h.mu.Unlock()
+	if len(h.outstanding) != 0 {
+		return nil // not quiescent (must not happen for the callers of this function)
+	}
+	if c := atomic.LoadInt64(h.pendingPtr); c != 0 {
+		return fmt.Errorf("the seeder's pending response memory is %d although nothing is pending: every produced response went through SendChunk "+
+			"and every sender thread has finished the tasks queued before (limit %d; the reader loop stops serving requests when the limit is reached)",
+			c, h.cfg.MaxPendingResponsesSize)
+	}
+	return nil
 }
 
 func (h *harness) unregister(peer string) error {
@@ -483,6 +642,14 @@ type mSession struct {
 	delivered int
 	done      bool
 	requests  int // requests that were served from this session
+
+	// send faults: a session is tainted from its first response whose SendChunk returned an error.
+	// The property speaks about the responses SENT; what a session owes its peer after a failed
+	// send (go on as the code does, send again, give up) is not stated, so only the clauses that
+	// hold under every reading are claimed for it (see checkTainted).
+	tainted  bool
+	succIdx  int  // items of expect[:succIdx] were sent successfully
+	succDone bool // a response marked Done was sent successfully
 }
 
 type mPeer struct {
@@ -575,6 +742,7 @@ func describeResponses(rs []basestream.Response) string {
 type applyInfo struct {
 	opened, pruned, resumed, mismatch, tooMany, afterDone bool
 	nontrivial, heldThree, zeroOpen                       bool
+	tainted, completed                                    bool // the session had a failed send / got its Done by this request
 }
 
 // apply checks what the seeder did for one request against the model and advances the model.
@@ -663,6 +831,18 @@ func (m *model) check(r reqDesc, s *mSession, info applyInfo, o outcome) (applyI
 		if resp.SessionID != r.SID {
 			return info, fmt.Errorf("response %d carries session %d, the only request in flight was for session %d", i, resp.SessionID, r.SID)
 		}
+		failed := i < len(o.failed) && o.failed[i]
+		if s.tainted {
+			if err := m.checkTainted(r, s, i, resp, failed, numLimit, sizeLimit); err != nil {
+				return info, err
+			}
+			continue
+		}
+		if failed {
+			// produced before the failure could be known: it has to be the regular next response
+			// (checked below), but it was not delivered and the session is tainted from now on
+			info.tainted = true
+		}
 		if s.done {
 			return info, fmt.Errorf("response after Done on session %d: %s", s.sid, describeResponses(o.responses[i:]))
 		}
@@ -699,6 +879,21 @@ func (m *model) check(r reqDesc, s *mSession, info applyInfo, o outcome) (applyI
 		} else if len(p.keys) == 0 {
 			return info, fmt.Errorf("session %d: empty response that is not Done (no progress)", s.sid)
 		}
+		if failed {
+			s.tainted = true
+		} else {
+			s.succIdx, s.succDone = s.delivered, s.done
+		}
+	}
+	if s.tainted {
+		info.tainted = true
+		if len(o.feTypes) != len(o.responses) {
+			return info, fmt.Errorf("%d ForEachItem calls but %d responses", len(o.feTypes), len(o.responses))
+		}
+		return info, nil
+	}
+	if s.done && len(o.responses) > 0 {
+		info.completed = true
 	}
 	if uint32(len(o.responses)) < r.Chunks && !s.done {
 		return info, fmt.Errorf("session %d [%d,%d): %d chunks requested, %d sent and the session is not Done; delivered %v of %v",
@@ -717,6 +912,53 @@ func (m *model) check(r reqDesc, s *mSession, info applyInfo, o outcome) (applyI
 	}
 	info.nontrivial = s.requests >= 2 && info.heldThree
 	return info, nil
+}
+
+// checkTainted: a response of a session that had a failed send before. Claimed under every reading
+// of the property: it carries consecutive items of the session, none of which was already sent
+// successfully (no repeats), within the limits; Done only together with the last items of the
+// session; nothing after a Done that was sent successfully.
+func (m *model) checkTainted(r reqDesc, s *mSession, i int, resp basestream.Response, failed bool, numLimit, sizeLimit uint64) error {
+	if s.succDone {
+		return fmt.Errorf("session %d: response %d after a Done that was delivered", s.sid, i)
+	}
+	p, ok := resp.Payload.(*payload)
+	if !ok || p == nil {
+		return fmt.Errorf("response %d has a foreign payload %T", i, resp.Payload)
+	}
+	j := len(s.expect)
+	if len(p.keys) > 0 {
+		j = sort.Search(len(s.expect), func(x int) bool { return s.expect[x].Key >= p.keys[0] })
+	}
+	if j+len(p.keys) > len(s.expect) {
+		return fmt.Errorf("session %d [%d,%d) (had a failed send): response %d carries items %v, the session has %v", s.sid, s.start, s.stop, i, p.keys, keysOf(s.expect))
+	}
+	for x, k := range p.keys {
+		if s.expect[j+x].Key != k {
+			return fmt.Errorf("session %d [%d,%d) (had a failed send): response %d carries items %v, not consecutive items of the session %v", s.sid, s.start, s.stop, i, p.keys, keysOf(s.expect))
+		}
+	}
+	if len(p.keys) > 0 && j < s.succIdx {
+		return fmt.Errorf("session %d (had a failed send): response %d carries items %v, but %v were already delivered", s.sid, i, p.keys, keysOf(s.expect[:s.succIdx]))
+	}
+	if uint64(len(p.keys)) > numLimit+1 {
+		return fmt.Errorf("response with %d items exceeds the item limit %d by more than one", len(p.keys), numLimit)
+	}
+	if n := len(p.keys); n > 0 {
+		if withoutLast := p.size - p.sizes[n-1]; withoutLast > sizeLimit {
+			return fmt.Errorf("response of size %d (last item %d) exceeds the size limit %d by more than one item", p.size, p.sizes[n-1], sizeLimit)
+		}
+	}
+	if resp.Done && j+len(p.keys) != len(s.expect) {
+		return fmt.Errorf("session %d [%d,%d) (had a failed send) marked Done with items %v, the session ends with %v", s.sid, s.start, s.stop, p.keys, keysOf(s.expect))
+	}
+	if !failed {
+		if len(p.keys) > 0 {
+			s.succIdx = j + len(p.keys)
+		}
+		s.succDone = resp.Done
+	}
+	return nil
 }
 
 func (m *model) unregister(peer string) {
@@ -768,11 +1010,33 @@ func genConfig(t *rapid.T) basestreamseeder.Config {
 	}
 }
 
-func runHistory(t *rapid.T) {
+func runHistory(t *rapid.T) { runHistoryMode(t, false, st) }
+
+// runHistoryMode: faults = some peers are broken (every SendChunk returns an error) or flaky (a
+// drawn subset of the sends of each request fails), with mostly small pending-memory limits.
+func runHistoryMode(t *rapid.T, faults bool, st *stats.Collector) {
 	universe := genUniverse(t)
 	cfg := genConfig(t)
 	nPeers := rapid.IntRange(1, 3).Draw(t, "peers")
 	peers := []string{"A", "B", "C"}[:nPeers]
+	profile := map[string]string{}
+	if faults {
+		// a handful of failed responses (8 bytes per item + item sizes 0..4) add up to the limit
+		cfg.MaxPendingResponsesSize = rapid.SampledFrom([]int64{1 << 30, 400, 150, 100, 60, 40, 20, 1}).Draw(t, "maxPendingFaults")
+		for {
+			n := 0
+			for _, p := range peers {
+				profile[p] = rapid.SampledFrom([]string{"healthy", "healthy", "broken", "flaky", "flaky"}).Draw(t, "profile")
+				if profile[p] != "healthy" {
+					n++
+				}
+			}
+			if n > 0 {
+				break
+			}
+		}
+	}
+	failedSends, failedMem, limitReachedAt := 0, int64(0), -1
 	span := 0
 	if len(universe) > 0 {
 		span = universe[len(universe)-1].Key + 1
@@ -793,7 +1057,8 @@ func runHistory(t *rapid.T) {
 	nontrivial := false
 
 	fatal := func(format string, a ...interface{}) {
-		t.Fatalf("%s\nuniverse=%v cfg=%+v\nhistory:\n  %s", fmt.Sprintf(format, a...), universe, cfg, strings.Join(history, "\n  "))
+		violationSeen.Store(true)
+		t.Fatalf("%s\nuniverse=%v cfg=%+v send faults=%v\nhistory:\n  %s", fmt.Sprintf(format, a...), universe, cfg, profile, strings.Join(history, "\n  "))
 	}
 
 	for i := 0; i < nOps; i++ {
@@ -849,6 +1114,20 @@ func runHistory(t *rapid.T) {
 			r.Chunks = cfg.MaxResponseChunks + uint32(rapid.IntRange(1, 3).Draw(t, "over"))
 		}
 		r.Gated = gating && rapid.IntRange(0, 2).Draw(t, "gated?") == 0
+		var mask uint64
+		switch profile[peer] {
+		case "broken":
+			mask = math.MaxUint64
+		case "flaky":
+			for b := uint32(0); b < r.Chunks && b < 64; b++ {
+				if rapid.Bool().Draw(t, "sendFails") {
+					mask |= 1 << b
+				}
+			}
+		}
+		if faults {
+			h.setFailMask(peer, mask)
+		}
 
 		history = append(history, r.String())
 		ops = append(ops, opDesc{Kind: "request", Req: &r})
@@ -867,6 +1146,27 @@ func runHistory(t *rapid.T) {
 			fatal("%v", err)
 		}
 		history[len(history)-1] += " -> " + describeResponses(o.responses)
+		nFailedNow := 0
+		for j, f := range o.failed {
+			if f {
+				nFailedNow++
+				failedSends++
+				if p, ok := o.responses[j].Payload.(*payload); ok && p != nil {
+					failedMem += int64(p.TotalMemSize())
+				}
+			}
+		}
+		if nFailedNow > 0 {
+			history[len(history)-1] += fmt.Sprintf(" SendChunk failed: %v", o.failed)
+			classes["failed_send"] = true
+			if r.Gated {
+				classes["failed_send_held_back_first"] = true
+			}
+			if failedMem >= cfg.MaxPendingResponsesSize && limitReachedAt < 0 {
+				limitReachedAt = i
+				classes["failed_sends_memory_reached_pending_limit"] = true
+			}
+		}
 		if len(o.misb) > 0 {
 			history[len(history)-1] += fmt.Sprintf(" misbehaviour=%v", o.misb)
 		}
@@ -880,6 +1180,34 @@ func runHistory(t *rapid.T) {
 		if verr != nil {
 			fatal("%v", verr)
 		}
+		// nothing is pending now: the seeder's pending counter must be back at zero
+		if err := h.checkDrained(); err != nil {
+			if _, ok := err.(errTimeout); ok && cn.Overloaded() {
+				st.Inconclusive()
+				return
+			}
+			fatal("%v", err)
+		}
+		if faults {
+			served := len(o.responses) > 0 && nFailedNow == 0
+			for name, on := range map[string]bool{
+				"request_of_" + profile[peer] + "_peer":                     true,
+				"session_with_failed_send_resumed":                          info.tainted && info.resumed,
+				"served_after_failed_send":                                  served && failedSends > 0,
+				"healthy_peer_served_after_failed_send":                     served && failedSends > 0 && profile[peer] == "healthy",
+				"served_after_three_failed_sends":                           served && failedSends >= 3,
+				"served_after_failed_sends_memory_reached_pending_limit":    served && limitReachedAt >= 0,
+				"session_completed_after_failed_send":                       info.completed && !info.tainted && failedSends > 0,
+				"session_completed_after_failed_sends_memory_reached_limit": info.completed && !info.tainted && limitReachedAt >= 0,
+			} {
+				if on {
+					classes[name] = true
+				}
+			}
+			if info.completed && !info.tainted && failedSends > 0 {
+				nontrivial = true
+			}
+		}
 		for name, on := range map[string]bool{
 			"open": info.opened, "open_prunes_oldest": info.pruned, "resume": info.resumed,
 			"selector_mismatch": info.mismatch, "too_many_chunks": info.tooMany, "request_after_done": info.afterDone,
@@ -890,7 +1218,7 @@ func runHistory(t *rapid.T) {
 				classes[name] = true
 			}
 		}
-		if info.nontrivial {
+		if info.nontrivial && !faults {
 			nontrivial = true
 		}
 	}
@@ -904,6 +1232,15 @@ func runHistory(t *rapid.T) {
 	}
 	h.mu.Lock()
 	hv, stalls, maxOut := h.violation, h.stalls, h.maxOutSeen
+	if h.pendingPtr != nil {
+		classes["pending_counter_observed"] = true
+		if h.maxPending > 0 {
+			classes["pending_counter_sampled_nonzero"] = true
+		}
+		if h.maxPending >= cfg.MaxPendingResponsesSize {
+			classes["pending_counter_sampled_at_or_above_limit"] = true
+		}
+	}
 	h.mu.Unlock()
 	if hv != "" {
 		fatal("%s", hv)
@@ -919,13 +1256,29 @@ func runHistory(t *rapid.T) {
 		cl = append(cl, c)
 	}
 	sort.Strings(cl)
-	if nontrivial {
+	if nontrivial && !faults {
 		cl = append(cl, "nontrivial_multi_request_session_with_three_held")
 	}
-	st.Case(stats.Hash(universe, cfg, history), nontrivial, cl...)
+	if nontrivial && faults {
+		cl = append(cl, "nontrivial_session_served_completely_after_failed_sends")
+	}
+	if faults {
+		st.Class("failed_sends_total", int64(failedSends))
+	}
+	st.Case(stats.Hash(universe, cfg, profile, history), nontrivial, cl...)
 	st.Sample(func() interface{} {
-		return map[string]interface{}{"universe": universe, "cfg": fmt.Sprintf("%+v", cfg), "ops": ops}
+		return map[string]interface{}{"universe": universe, "cfg": fmt.Sprintf("%+v", cfg), "send_faults": profile, "ops": ops}
 	})
+}
+
+var stFaults = stats.New("sendfaults")
+
+// TestC17SendFaults: the same histories with peers whose SendChunk returns an error (always, or
+// for a drawn subset of the sends). Sessions without a failed send - of healthy peers and of the
+// faulty peers themselves - must be served exactly as the property states, and the seeder's pending
+// response memory must return to zero whenever nothing is pending.
+func TestC17SendFaults(t *testing.T) {
+	rapid.Check(t, func(t *rapid.T) { runHistoryMode(t, true, stFaults) })
 }
 
 // TestC17Sessions: generated histories against the session-table model.
